@@ -618,5 +618,125 @@ def rule_ownthread(ctx):
     return r
 
 
-RULES = [rule_fpdet, rule_fpcov, rule_fppos, rule_policy, rule_schema, rule_memkey, rule_ownresult,
+def rule_overwrite(ctx):
+    """(seed C14_9) 'The stored score never gets worse' and `overwrite=True/'improved'` / `update_from_tree`
+    need a store to *displace* the record already on disk: the publishing step of the durable store overwrites
+    (replace / rename).  A hard link (`os.link`, `Path.hardlink_to`) or an exclusive create fails or is skipped
+    when the entry exists — the improvement lives in the memory layer only and is gone after a reload."""
+    r = RuleResult("C14-OVERWRITE", "a store displaces the record already on disk", 1)
+    dd = ctx.p.cls(C.UTILS, "DiskDict")
+    C.require(dd is not None, "DiskDict not found")
+    f = dd.methods.get("__setitem__")
+    C.require(f is not None, "DiskDict.__setitem__ not found")
+    from .c15 import _with_helpers
+    pubs, weak = [], []
+    for g in _with_helpers(ctx, [f]):
+        for n in walk_local(g.node):
+            if not isinstance(n, ast.Call):
+                continue
+            d = dotted(n.func)
+            if d in ("os.replace", "os.rename", "shutil.move") and len(n.args) >= 2:
+                pubs.append((g, n))
+            elif isinstance(n.func, ast.Attribute) and n.func.attr in ("replace", "rename") and len(n.args) == 1 \
+                    and not n.keywords and d not in ("os.replace", "os.rename") and not isinstance(n.args[0], ast.Constant):
+                pubs.append((g, n))
+            elif d in ("os.link", "os.symlink") or (isinstance(n.func, ast.Attribute) and
+                                                    n.func.attr in ("link_to", "hardlink_to", "symlink_to")):
+                weak.append((g, n))
+            elif d == "open" and len(n.args) >= 2 and isinstance(n.args[1], ast.Constant) and "x" in str(n.args[1].value):
+                # exclusive create of the entry itself
+                weak.append((g, n))
+    key = ctx.key(f, "C14-OVERWRITE")
+    if weak and not pubs:
+        g, n = weak[0]
+        r.violation(key, C.loc(g, n), f"`{C.unparse(n, 50)}` publishes the record without displacing an existing one: a better "
+                    f"(or forced) record for a known contraction changes the memory layer only; after a reload the old path and "
+                    f"score are back")
+    elif pubs:
+        g, n = pubs[0]
+        r.ok(key, C.loc(g, n), f"`{C.unparse(n, 50)}` replaces whatever is stored under the entry name")
+    else:
+        direct = [n for n in walk_local(f.node) if isinstance(n, ast.Call) and dotted(n.func) == "open"]
+        if direct:
+            r.ok(key, C.loc(f, direct[0]), "the entry file is (re)written in place")
+        else:
+            raise AnalysisError("DiskDict.__setitem__: publishing step not recognised")
+    return r
+
+
+def rule_objective(ctx):
+    """(seed C14_10) A hit is rebuilt with `objective=self.minimize`, which is the last sub-optimizer's objective
+    if this thread searched and the *stored constructor options* otherwise (reload, new instance, other
+    thread).  Both must be the same objective.  Where the sub-optimizer class derives its effective objective
+    from further constructor parameters (`minimize += f"-{chi}"`), the wrapper has to store the derived objective
+    itself: the value it puts under "minimize" depends on the same parameters (sibling agreement of the two
+    constructors)."""
+    r = RuleResult("C14-OBJECTIVE", "a hit is scored with the objective the record was searched with", 1)
+    base = ctx.p.cls(C.REUSABLE, "ReusableOptimizer")
+    C.require(base is not None, "ReusableOptimizer not found")
+    for w in [base] + list(base.all_subclasses()):
+        gs = w.methods.get("_get_suboptimizer")
+        if gs is None:
+            continue
+        sub = None
+        for n in walk_local(gs.node):
+            if isinstance(n, ast.Return) and isinstance(n.value, ast.Call):
+                t = ctx.p.resolve_expr_static(gs.module, n.value.func, gs)
+                if hasattr(t, "methods"):
+                    sub = t
+        if sub is None:
+            continue
+        sinit = sub.methods.get("__init__")
+        key = ctx.key(w.methods.get("__init__") or gs, "C14-OBJECTIVE", w.name)
+        if sinit is None:
+            r.ok(key, gs.loc, f"{sub.name} takes its objective as given")
+            continue
+        # parameters of the sub-optimizer's constructor that its effective objective depends on
+        fl = ctx.flow(sinit)
+        folded = set()
+        for n in walk_local(sinit.node):
+            tgt = None
+            if isinstance(n, ast.AugAssign) and isinstance(n.target, ast.Name) and n.target.id == "minimize":
+                tgt = n
+            elif isinstance(n, ast.Assign) and any(isinstance(t, ast.Name) and t.id == "minimize" for t in n.targets):
+                tgt = n
+            if tgt is None:
+                continue
+            for x in ast.walk(tgt.value):
+                if isinstance(x, ast.Name) and x.id in {a.arg for a in sinit.node.args.args} - {"self", "minimize"}:
+                    folded.add(x.id)
+        winit = w.methods.get("__init__")
+        if not folded:
+            r.ok(key, (winit or gs).loc, f"{sub.name} does not derive its objective from other options")
+            continue
+        if winit is None:
+            r.violation(key, gs.loc, f"{sub.name} folds {sorted(folded)} into its objective but {w.name} has no constructor "
+                        f"that does the same for the options it stores")
+            continue
+        wfl = ctx.flow(winit)
+        stored = None
+        for n in walk_local(winit.node):
+            if isinstance(n, ast.Assign) and isinstance(n.targets[0], ast.Subscript) and \
+                    isinstance(n.targets[0].slice, ast.Constant) and n.targets[0].slice.value == "minimize":
+                stored = n
+            elif isinstance(n, ast.keyword) and n.arg == "minimize":
+                stored = n
+        if stored is None:
+            raise AnalysisError(f"{w.name}.__init__: the stored objective was not found")
+        val = stored.value
+        st = stored if isinstance(stored, ast.stmt) else C.enclosing_stmt(winit, stored)
+        deps = wfl.deps(val, wfl.cfg.containing(st, winit.module.parents).id, "may")
+        dep_params = {d_[1] for d_ in deps if d_[0] == "param"}
+        missing = sorted(folded - dep_params)
+        if missing:
+            r.violation(key, C.loc(winit, st), f"{sub.name} folds {missing} into its objective, but the objective {w.name} stores "
+                        f"(`{C.unparse(val, 40)}`) does not depend on {missing}: a hit served without a search of this "
+                        f"thread (reload, new instance, other thread) is rebuilt and scored with a different objective than "
+                        f"the record was found with")
+        else:
+            r.ok(key, C.loc(winit, st), f"the stored objective depends on {sorted(folded)} like {sub.name}'s own")
+    return r
+
+
+RULES = [rule_objective, rule_overwrite, rule_fpdet, rule_fpcov, rule_fppos, rule_policy, rule_schema, rule_memkey, rule_ownresult,
          rule_ownthread, rule_hitrebuild]
